@@ -88,6 +88,9 @@ fn main() {
         .and_then(|s| serde_json::from_str::<serde_json::Value>(&s).ok())
         .and_then(|v| v.get("findings").and_then(|f| f.as_array().cloned()))
         .unwrap_or_default();
+    if args.iter().any(|a| a == "--light") {
+        pv::ev::LIGHT.store(true, std::sync::atomic::Ordering::Relaxed);
+    }
     let ctx = Ctx {
         prop,
         tier,
@@ -99,6 +102,7 @@ fn main() {
         out,
         known,
         replay: arg(&args, "--replay"),
+        case_limit_s: arg(&args, "--case-limit-s").and_then(|s| s.parse().ok()).unwrap_or(30),
     };
     let code = pv::checks::dispatch(&ctx);
     pv::lsp::kill_all_children();
